@@ -500,6 +500,56 @@ func c09EnumPrograms() []*Program {
 			}
 		}
 	}
+	// a store into one parameter the caller left out changes that parameter only
+	for nparams := 2; nparams <= 4; nparams++ {
+		for given := 0; given < nparams-1; given++ {
+			for target := given; target < nparams; target++ {
+				for kind := 0; kind < 4; kind++ {
+					var params []string
+					var ret []Expr
+					for i := 0; i < nparams; i++ {
+						params = append(params, fmt.Sprintf("p%d", i))
+						ret = append(ret, V(fmt.Sprintf("p%d", i)))
+					}
+					t := V(params[target])
+					var st Stmt
+					switch kind {
+					case 0:
+						st = asg(t, S("set"))
+					case 1:
+						st = ES(&IncDec{Op: "++", X: t})
+					case 2:
+						st = ES(&Assign{Op: "+=", L: t, R: N("5")})
+					default:
+						st = asg(t, Arr(N("1")))
+					}
+					fn := &Func{Name: "fn", Params: params, Body: Blk(Pr(S("before"), js(Arr(ret...))), st, Pr(S("after"), js(Arr(ret...))), &Return{X: Arr(ret...)})}
+					var args []Expr
+					for i := 0; i < given; i++ {
+						args = append(args, N(strconv.Itoa(10+i)))
+					}
+					body := []Stmt{Pr(js(CallE(V("fn"), args...))), Pr(js(CallE(V("fn"), args...)))}
+					out = append(out, &Program{Items: []any{fn, &Rule{Kind: "BEGIN", Body: &Block{Stmts: body}}}})
+				}
+			}
+		}
+	}
+	// prefix and postfix ++ / -- on locations that have to be created: the value of the expression and what is stored
+	for _, loc := range []func() Expr{
+		func() Expr { return Idx(V("hist"), N("2")) }, func() Expr { return Idx(V("hist"), N("0")) }, func() Expr { return Idx(Mem(V("rec"), "visits"), N("3")) },
+		func() Expr { return Mem(V("cnt"), "k") }, func() Expr { return Idx(Idx(V("grid"), N("1")), N("2")) }, func() Expr { return Mem(Idx(V("rows"), N("1")), "n") }, func() Expr { return V("plain") },
+		func() Expr { return Idx(V("short"), N("4")) },
+	} {
+		for _, op := range []string{"++", "--"} {
+			for _, prefix := range []bool{true, false} {
+				body := []Stmt{asg(V("short"), Arr(N("1"), N("2"))),
+					asg(V("first"), &IncDec{Op: op, Prefix: prefix, X: loc()}), Pr(S("first"), js(V("first")), js(loc())),
+					asg(V("second"), &IncDec{Op: op, Prefix: prefix, X: loc()}), Pr(S("second"), js(V("second")), js(loc())),
+					Pr(js(V("hist")), js(V("rec")), js(V("cnt")), js(V("grid")), js(V("rows")), js(V("short")))}
+				out = append(out, &Program{Items: []any{&Rule{Kind: "BEGIN", Body: &Block{Stmts: body}}}})
+			}
+		}
+	}
 	// literals built inside loops from the loop variable
 	for _, it := range []Expr{Arr(S("x"), S("y"), S("z")), Arr(N("1"), N("2"), N("3")), S("abc"), obj1("p", S("u"))} { // a one-key object: the order in which several keys are visited is not stated
 		for li := 0; li < 2; li++ {
